@@ -594,7 +594,7 @@ PROPS = {
              'capacities 4 / 8 / 16 / 64 / 32768, write sizes around 0, cap/2, cap-1, cap, cap+1, 2*cap+3; after every operation the dictionary (what the inflater would be given) and the whole backing array are compared with '
              'Model/WinPool.v, which replays the pool\'s observed choice of array. pools suite: sequential histories over 2-3 connections (server and client role) sharing the library\'s pools under GOMAXPROCS(1) (sync.Pool then hands a returned object straight to the next Get): open (takeover / no takeover), '
              'compressed and plain messages of 40..40000 bytes tagged with their connection, partial reads, read to the end, reading AGAIN after the end, abandoning a message, a Close frame after the first '
-             'fragment of a compressed message, CloseNow and a read on the abandoned reader afterwards; compressed messages WRITTEN by the library (Write, two in a row, a streamed message left unfinished, CloseNow under it, a new connection afterwards, a Write whose last frame fails because the transport went away); a PROBE as the first compressed message of a new connection — a hand-made DEFLATE block whose only token refers 1 or 32768 bytes back, before the first byte of the connection itself: nothing may be inflated from it; every finished Write must have reached the transport of its own connection and no other; plus the historical witnesses. The pool hooks record Get / Put / Use of every flate reader and flate writer per connection. '
+             'fragment of a compressed message, a read limit that trips in the middle of a compressed message (then CloseNow, then other connections reading in alternation), CloseNow and a read on the abandoned reader afterwards; compressed messages WRITTEN by the library (Write, two in a row, a streamed message left unfinished, CloseNow under it, a new connection afterwards, a Write whose last frame fails because the transport went away); a PROBE as the first compressed message of a new connection — a hand-made DEFLATE block whose only token refers 1 or 32768 bytes back, before the first byte of the connection itself: nothing may be inflated from it; every finished Write must have reached the transport of its own connection and no other; plus the historical witnesses. The pool hooks record Get / Put / Use of every flate reader and flate writer per connection. '
              'Judge: every byte returned by a read carries its own connection\'s tag. Tie: the observed Get/Put/Use events drive Model/Pools.v (a Get of a held object, a Put by a non-holder or a Use of an object not held '
              'is a violation). non-trivial = histories with >= 2 messages; distinct = distinct case line',
         trusted=COMMON_TRUSTED + ['Model/Pools.v abstracts data to object ownership (which connection holds which pooled flate reader and what its limitReader points to); flate/bufio objects deliver bytes of the source they were last Reset onto (assumed)',
